@@ -116,6 +116,9 @@ func (p *Printer) S(t Term) string {
 		if n, ok := p.binder[x.Of]; ok {
 			return "payload(" + n + ")"
 		}
+		if x.Of != nil {
+			return "payload(" + CaseName(x.Of.Type()) + ")"
+		}
 		return "payload(?)"
 	case *Lam:
 		var ns []string
